@@ -70,14 +70,34 @@ def impl_ffl(values):
     return _guard(f)
 
 
+def second_use(cls, bounds, init=None):
+    """Two of three cases use the generator object a second time (an algorithm run twice, a study repeated on a changed
+    box): the rows of the first design were overwritten by the caller; in one variant the first design was made while the
+    same parameter dicts still declared another box.  What counts is the design the second generate() returns."""
+    mode = (len(bounds) + int(abs(float(bounds[0][0])) * 4)) % 3 if bounds else 0
+    if mode == 0:
+        g = cls(_params(bounds))
+        if init is not None:
+            g.init(init)
+        return g.generate()
+    first_bounds = bounds if mode == 2 else [(float(lb) - 1.5, float(ub) + 2.25) for lb, ub in bounds]
+    ps = [{"name": "x_%d" % i, "bounds": [lb, ub]} for i, (lb, ub) in enumerate(first_bounds)]      # a list of its own
+    g = cls(ps)
+    if init is not None:
+        g.init(init)
+    first = g.generate()
+    for r in first:
+        if isinstance(r, list):
+            for j in range(len(r)):
+                r[j] = -98765.4321
+    for q, (lb, ub) in zip(ps, bounds):
+        q["bounds"] = [lb, ub]
+    return g.generate()
+
+
 def impl_ffc(bounds, center):
     from artap.operators import FullFactorGenerator
-
-    def f():
-        g = FullFactorGenerator(_params(bounds))
-        g.init(center)
-        return _rows(g.generate())
-    return _guard(f)
+    return _guard(lambda: _rows(second_use(FullFactorGenerator, bounds, center)))
 
 
 def impl_pb(n):
@@ -87,7 +107,7 @@ def impl_pb(n):
 
 def impl_pbb(bounds):
     from artap.operators import PlackettBurmanGenerator
-    return _guard(lambda: _rows(PlackettBurmanGenerator(_params(bounds)).generate()))
+    return _guard(lambda: _rows(second_use(PlackettBurmanGenerator, bounds)))
 
 
 def impl_bb(n, center):
@@ -97,7 +117,7 @@ def impl_bb(n, center):
 
 def impl_bbb(bounds):
     from artap.operators import BoxBehnkenGenerator
-    return _guard(lambda: _rows(BoxBehnkenGenerator(_params(bounds)).generate()))
+    return _guard(lambda: _rows(second_use(BoxBehnkenGenerator, bounds)))
 
 
 def impl_gsd(levels, r, n):
